@@ -102,7 +102,12 @@ impl Leaf {
 	/// Open the leaf as a reader of the code under test.
 	pub fn open(&self, set: &TileSet, guards: &mut Vec<TmpGuard>) -> Result<Box<dyn TilesReaderTrait>, Fail> {
 		match &self.kind {
-			LeafKind::Mem(default_stream) => Ok(Box::new(crate::containers::mem_reader(set, *default_stream))),
+			LeafKind::Mem(default_stream) => {
+				// in-memory leaves answer after 0..4 pending polls, derived from the digits of the tag
+				// (overlay / merge leaves are tagged src0, src1, ...: earlier ones tend to be slower)
+				let n: usize = self.spec.tag.chars().filter(|c| c.is_ascii_digit()).collect::<String>().parse::<u64>().unwrap_or(0) as usize;
+				Ok(Box::new(crate::containers::mem_reader(set, *default_stream).with_yields([3u8, 0, 2, 1, 4, 0][n % 6])))
+			}
 			LeafKind::Repo(target) => {
 				let path = target.fresh_path();
 				guards.push(TmpGuard(path.clone()));
